@@ -112,7 +112,7 @@ impl ChainIndex {
         ensures
             //# C02,C09,C17:loaded_index_is_what_the_driver_assumes
             r is Ok ==> exists|dir: &PathBuf| index_ok(r->Ok_0, #[trigger] index_at(dir), options.range),
-//@after `let mut block_index = get_block_index(&path)?;`
+//@after `let mut block_index`
         let ghost idx0 = block_index.view();
         let ghost dir0 = choose|dir: &PathBuf| idx0 == index_at(dir);
 //@loop 1
@@ -122,7 +122,7 @@ impl ChainIndex {
                 forall|f: u64| max_height_blk_index.view().contains_key(f) ==> (exists|j: int| 0 <= j < i__block_index && (#[trigger] es__block_index@[j]).0 == max_height_blk_index.view()[f] && es__block_index@[j].1.blk_index == f),
                 forall|j: int| 0 <= j < i__block_index ==> max_height_blk_index.view().contains_key((#[trigger] es__block_index@[j]).1.blk_index)
                     && es__block_index@[j].0 <= max_height_blk_index.view()[es__block_index@[j].1.blk_index],
-//@before `let min_height = options.range.start;`
+//@before `let min_height`
         proof {
             let es = es__block_index@;
             let mhb = max_height_blk_index.view();
